@@ -5,6 +5,8 @@ Property theorems only; proofs in TddaVerif/Lemmas/RefTestCase.lean.
 import TddaVerif.Model.RefTestCase
 import TddaVerif.Props.C19Spec
 import TddaVerif.Lemmas.RefTestCase
+import TddaVerif.Model.RefPytest
+import TddaVerif.Lemmas.RefPytest
 
 namespace TddaVerif.Props.C19
 open TddaVerif.Py TddaVerif.RefTestCase
@@ -64,5 +66,49 @@ example : parseArgv ["p".toList, "-v1".toList, "TestA".toList, "-0".toList, "--t
                      "--write".toList, "a,b".toList]
     = .ok { argv := ["p".toList, "-v".toList, "TestA".toList], tagged := true, check := true, quiet := false,
             regen := [some "a".toList, some "b".toList] } := by rfl
+
+/-! ### the pytest collection filter (referencepytest.tagged: --tagged / --istagged)
+
+An item is what the filter reads of a collected test: its name, the class of a method (with the class's tag as Python
+resolves it through inheritance) and the function's own tag. -/
+open TddaVerif.RefPytest in
+/-- without either option the collection is left as it is -/
+theorem pytest_no_option_untouched (items : List Item) : filterItems false false items = (items, []) :=
+  PytestLemmas.no_option_untouched items
+
+open TddaVerif.RefPytest in
+/-- under the tagged option exactly the tagged items stay, in their order, and nothing is printed -/
+theorem pytest_tagged_selects_exactly (items : List Item) :
+    filterItems true false items = (items.filter (·.tagged), []) :=
+  PytestLemmas.tagged_selects_exactly items
+
+open TddaVerif.RefPytest in
+/-- an item stays iff it is a collected item that carries the tag itself or through its class -/
+theorem pytest_tagged_mem_iff (items : List Item) (i : Item) :
+    i ∈ (filterItems true false items).1 ↔ i ∈ items ∧ (i.fnTagged = true ∨ (i.cls.isSome = true ∧ i.clsTagged = true)) :=
+  PytestLemmas.tagged_mem_iff items i
+
+open TddaVerif.RefPytest in
+/-- each once -/
+theorem pytest_tagged_nodup (items : List Item) (h : items.Nodup) : (filterItems true false items).1.Nodup :=
+  PytestLemmas.tagged_nodup items h
+
+open TddaVerif.RefPytest in
+/-- the list-tagged option leaves no test to run, with or without the tagged option -/
+theorem pytest_check_runs_none (run : Bool) (items : List Item) : (filterItems run true items).1 = [] :=
+  PytestLemmas.check_runs_none run items
+
+open TddaVerif.RefPytest in
+/-- the list-tagged option names exactly the classes that contain a tagged test, and the tagged module-level functions -/
+theorem pytest_check_lists_exactly (run : Bool) (items : List Item) (n : Name) :
+    n ∈ (filterItems run true items).2 ↔
+      (∃ i ∈ items, i.tagged = true ∧ i.cls = some n) ∨ (∃ i ∈ items, i.tagged = true ∧ i.cls = none ∧ i.name = n) :=
+  PytestLemmas.check_lists_exactly run items n
+
+open TddaVerif.RefPytest in
+/-- a class is named once however many tagged tests it has -/
+theorem pytest_check_lists_classes_once (run : Bool) (items : List Item) (hm : ∀ i ∈ items, i.cls.isSome = true) :
+    (filterItems run true items).2.Nodup :=
+  PytestLemmas.check_lists_classes_once run items hm
 
 end TddaVerif.Props.C19
